@@ -73,7 +73,7 @@ MESH_RULES = {
 }
 DECLINED = {'derivative': 'argument manipulation on quantities: unary pass-through, covered by the unary rule on plain arrays only', 'factor': 'idem', 'jump': 'needs interfaces', 'kronecker': 'unary pass-through', 'linearize': 'idem',
             'swap_spaces': 'idem', 'opposite': 'idem', 'replace_arguments': 'idem', 'scatter': 'idem', 'evaluate': 'tuple pass-through', 'field': 'product of dims (checked concretely below)', 'arguments_for': 'no dimension',
-            'locate': 'numeric geometry (C11 declined)', 'bind': 'sample pass-through (checked concretely below)', 'integral': 'sample pass-through (checked concretely below)'}
+            'locate': 'dimension rule checked concretely below; the numerics are C11 (declined)', 'bind': 'sample pass-through (checked concretely below)', 'integral': 'sample pass-through (checked concretely below)'}
 
 def fname(f):
     f0 = f[0] if isinstance(f, tuple) else f
@@ -182,6 +182,24 @@ def mesh_cases():
                 except Exception as ex:
                     bad.append(f'{name} geom{vec(pg)} f{vec(pf)}: raised {type(ex).__name__}: {ex}'[:200]); continue
                 if norm(typeof(r)) != norm(want): bad.append(f'{name} geom{vec(pg)} f{vec(pf)}: dimension {norm(typeof(r))}, expected {norm(want)}')
+        # locate compares distances with tol / maxdist: those must carry the dimension of the geometry (the numerics of locate are not the subject: the dimension
+        # rule is exercised on a structured mesh where locate is a closed formula)
+        t1, g1 = mesh.rectilinear([numpy.linspace(0, 1, 3)] * 2)
+        pts = numpy.array([[.25, .25], [.75, .5]])
+        for pg in (L, {'L': 1, 'T': -1}):
+            geom = Q(pg, g1); other = {'T': 1} if pg == L else L
+            cases_ = [('coords of the same dimension, tol of the same dimension', lambda: t1.locate(geom, Q(pg, pts), tol=Q(pg, 1e-10)), True),
+                      ('coords of another dimension', lambda: t1.locate(geom, Q(other, pts), tol=Q(pg, 1e-10)), False), ('plain coords', lambda: t1.locate(geom, pts, tol=Q(pg, 1e-10)), False),
+                      ('plain non-zero tol', lambda: t1.locate(geom, Q(pg, pts), tol=1e-10), False), ('tol of another dimension', lambda: t1.locate(geom, Q(pg, pts), tol=Q(other, 1e-10)), False),
+                      ('plain maxdist', lambda: t1.locate(geom, Q(pg, pts), tol=Q(pg, 1e-10), maxdist=.5), False), ('maxdist of the same dimension', lambda: t1.locate(geom, Q(pg, pts), tol=Q(pg, 1e-10), maxdist=Q(pg, .5)), True)]
+            for name, build, ok in cases_:
+                n += 1
+                try:
+                    build(); accepted = True
+                except SI.DimensionError: accepted = False
+                except Exception as ex:
+                    bad.append(f'locate geom{vec(pg)} {name}: raised {type(ex).__name__}: {ex}'[:200]); continue
+                if accepted != ok: bad.append(f'locate geom{vec(pg)} {name}: ' + ('accepted although the dimensions are incompatible' if accepted else 'rejected although the dimensions agree'))
     return n, bad
 
 def unit_roundtrips():
@@ -207,6 +225,29 @@ def unit_roundtrips():
             q = SI.parse(s_)
             if norm(typeof(q)) != norm(want): bad.append(f'parse({s_!r}) has dimension {typeof(q)}')
         except Exception as ex: bad.append(f'{s_!r}: {type(ex).__name__}: {ex}')
+    # grammar semantics: leading number, then factors [scale]unit[power] joined by * and /, each factor meaning scale * unit**power; the reference multiplies
+    # the factors with the (separately verified) quantity arithmetic
+    import itertools, fractions
+    scales = ('', '2', '0.5', '3'); unitnames = ('m', 's', 'kg', 'mm', 'h'); powers = (('', 1), ('2', 2), ('3', 3), ('1_2', fractions.Fraction(1, 2)))
+    factors = [(sc + u + pw, (float(sc) if sc else 1.) * getattr(SI.units, u) ** pv) for sc in scales for u in unitnames for pw, pv in powers]
+    rng = __import__('random').Random(0)
+    combos = [(lead, [rng.choice(factors) for _ in range(k)], [rng.choice('*/') for _ in range(k - 1)]) for lead in ('', '3', '1.5') for k in (1, 2, 3) for _ in range(40)]
+    # every (scale != 1, power != 1) factor in a non-leading position is covered systematically
+    for f1 in factors[:1] + factors[5:6]:
+        for f2 in factors:
+            for op in '*/': combos.append(('', [f1, f2], [op])); combos.append(('3', [f1, f2], [op]))
+    noscale = [f for f in factors if not f[0][0].isdigit()]
+    for lead, fs, ops in combos:
+        if lead and fs[0][0][0].isdigit(): fs = [rng.choice(noscale)] + list(fs[1:])     # a leading number followed by a scaled factor would merge into one numeral
+        text = lead + fs[0][0] + ''.join(op + f[0] for op, f in zip(ops, fs[1:]))
+        want = (float(lead) if lead else 1.) * fs[0][1]
+        for op, f in zip(ops, fs[1:]): want = want * f[1] if op == '*' else want / f[1]
+        n += 1
+        try:
+            q = SI.parse(text)
+            ratio = q / want
+            if isinstance(ratio, SI.Quantity) or abs(float(ratio) - 1) > 1e-12: bad.append(f'parse({text!r}) = {q!r}, the grammar reading gives {want!r}')
+        except Exception as ex: bad.append(f'{text!r}: {type(ex).__name__}: {ex}')
     return n, bad
 
 def main(argv=None):
